@@ -24,6 +24,181 @@ def find_encoders(fx):
     return enc
 
 
+# RFC 8259 section 7: the two-character escapes and the characters that MUST be escaped
+JSON_ESC = {'"': '\\"', '\\': '\\\\', '/': '\\/', '\b': '\\b', '\f': '\\f', '\n': '\\n', '\r': '\\r', '\t': '\\t'}
+MUST_ESCAPE = ['"', '\\'] + [chr(i) for i in range(0x20)]
+
+
+def _fmt_placeholders(bs):
+    """lowered format_args! template -> (literal pieces, [(zero_pad, width)]) ; None when the encoding is not understood"""
+    lits, phs, i = [], [], 0
+    while i < len(bs) and bs[i] != 0:
+        b = bs[i]
+        if b < 0x80:
+            lits.append(bytes(bs[i + 1:i + 1 + b]).decode('utf-8', 'replace'))
+            i += 1 + b
+        elif b == 0xC0:
+            phs.append((False, None))
+            i += 1
+        elif b & 0xC0 == 0xC0:
+            i += 1
+            flags = width = None
+            if b & 1:
+                flags = int.from_bytes(bytes(bs[i:i + 4]), 'little')
+                i += 4
+            if b & 2:
+                width = int.from_bytes(bytes(bs[i:i + 2]), 'little')
+                i += 2
+            if b & 4:
+                i += 2
+            if b & 8:
+                i += 2
+            phs.append((bool(flags is not None and (flags >> 24) & 1), width))
+        else:
+            return None
+    return lits, phs
+
+
+def encoder_rules(chk, fx, enc):
+    chk.rule('C18-string', 'the JSON string encoder maps `"` and `\\` to their two-character escapes, every other explicit arm to the escape RFC 8259 gives for that character, every '
+                           'control character below U+0020 to an escape (explicit arm or `\\u` + 4 zero-padded hex digits), and puts the result between double quotes')
+    chk.rule('C18-value', 'the JSON value encoder maps Bool to true/false, None to null, non-finite floats to null, strings and record / dict keys through the string encoder, '
+                          'and the elements of lists, tuples, records and dicts through itself')
+    cands = []
+    for f in fx.fns(TR):
+        for m in T.walk(f['body']):
+            if m.get('k') == 'Match' and m.get('src') == 'Normal':
+                chars = [a['pat']['v']['char'] for a in m['arms'] if a['pat'].get('k') == 'PLit' and 'char' in (a['pat'].get('v') or {})]
+                if '"' in chars:
+                    cands.append((f, m))
+    if not chk.need(len(cands) == 1, 'the JSON string encoder (a match over a char with an arm for \'"\') was not found uniquely in transpile.rs (%d)' % len(cands)):
+        return
+    f, m = cands[0]
+    where = T.norm(f['path'])
+    covered = set()
+    for a in m['arms']:
+        pat = a['pat']
+        pushed = [T.peel(c['a'][0]).get('v', {}) for c in T.calls(a['b']) if c.get('k') == 'MCall' and c['n'] in ('push_str', 'push') and c['a']]
+        if pat.get('k') == 'PLit' and 'char' in (pat.get('v') or {}) and not a.get('g'):
+            ch = pat['v']['char']
+            out = ''.join((v.get('str') or v.get('char') or '') for v in pushed if isinstance(v, dict))
+            inst = 'arm:%r' % ch
+            if out == JSON_ESC.get(ch):
+                covered.add(ch)
+                chk.ok('C18-string', inst, sample='%r -> %s' % (ch, out))
+            elif ch < ' ' and out.lower() == '\\u%04x' % ord(ch):
+                covered.add(ch)
+                chk.ok('C18-string', inst)
+            else:
+                chk.bad('C18-string', where, inst, 'the string encoder writes %r for the character %r; JSON requires %s' % (out, ch, JSON_ESC.get(ch) or ('\\u%04x' % ord(ch))), TR, a['l'])
+        elif pat.get('k') == 'Bind' and a.get('g'):
+            g = T.peel(a['g'])
+            bound = None
+            if g.get('k') == 'Binary' and g.get('op') in ('<', '<=', 'Lt', 'Le'):
+                v = T.lit_int(T.peel(g['y']))
+                if v is not None and pat['n'] in T.show(g['x']):
+                    bound = v if g['op'] in ('<', 'Lt') else v + 1
+            tpl = None
+            hexarg = False
+            for c in T.calls(a['b']):
+                if c.get('k') == 'Call' and (c.get('fn') or '').endswith("Arguments::<'a>::new"):
+                    tpl = (T.peel(c['a'][0]).get('v') or {}).get('bytes')
+                if c.get('k') == 'Call' and (c.get('fn') or '').endswith(('new_lower_hex', 'new_upper_hex')):
+                    hexarg = True
+            dec = _fmt_placeholders(tpl) if tpl else None
+            good = bool(dec and dec[0] == ['\\u'] and len(dec[1]) == 1 and dec[1][0] == (True, 4) and hexarg)
+            if bound is not None and good:
+                covered |= {chr(i) for i in range(min(bound, 0x20))}
+                chk.ok('C18-string', 'arm:control', sample='c < %#x -> \\u + 4 zero-padded hex digits' % bound)
+            elif bound is not None:
+                chk.bad('C18-string', where, 'arm:control', 'the arm for control characters (below %#x) does not write `\\u` followed by exactly four zero-padded hex digits' % bound, TR, a['l'])
+    missing = [c for c in MUST_ESCAPE if c not in covered]
+    if missing:
+        chk.bad('C18-string', where, 'unescaped', 'the string encoder leaves %s unescaped: the output is not valid JSON for strings containing them'
+                % ', '.join(repr(c) for c in missing[:6]), TR, f['line'])
+    else:
+        chk.ok('C18-string', 'mandatory', sample='all %d characters that must be escaped are' % len(MUST_ESCAPE))
+    quotes = [c for c in T.calls(f['body']) if c.get('k') == 'MCall' and c['n'] == 'push' and (T.peel(c['a'][0]).get('v') or {}).get('char') == '"'
+              and not any(c is x for a in m['arms'] for x in T.walk(a['b']))]
+    if len(quotes) == 2 and quotes[0]['l'] < m['l'] < quotes[1]['l']:
+        chk.ok('C18-string', 'quotes')
+    else:
+        chk.bad('C18-string', where, 'quotes', 'the string encoder does not put the escaped text between two double quotes', TR, f['line'])
+    # ---- value encoder
+    senc = where
+    vcands = [g for g in fx.fns(TR) if {'true', 'false', 'null'} <= {x.get('v', {}).get('str') for x in T.walk(g['body']) if x.get('k') == 'Lit' and isinstance(x.get('v'), dict)}]
+    if not chk.need(len(vcands) == 1, 'the JSON value encoder (true / false / null) was not found uniquely (%d)' % len(vcands)):
+        return
+    vf = vcands[0]
+    vname = T.norm(vf['path'])
+    vm = [x for x in T.walk(vf['body']) if x.get('k') == 'Match' and x.get('src') == 'Normal']
+    if not chk.need(vm, 'value encoder: no match'):
+        return
+    vm = vm[0]
+
+    def lit_strs(n):
+        return [x['v']['str'] for x in T.walk(n) if x.get('k') == 'Lit' and isinstance(x.get('v'), dict) and 'str' in x['v']]
+
+    def calls_to(n, name):
+        return [c for c in T.calls(n) if T.norm(T.callee(c) or '') == name or (T.callee(c) or '').endswith('::' + name.split('::')[-1])]
+    seen = set()
+    for a in vm['arms']:
+        vs = [v.split('::')[-1] for v in T.pat_variants(a['pat'])]
+        ps = json_pat = T.show(a['pat']) if hasattr(T, 'show') else ''
+        body = a['b']
+        for v in vs:
+            if v == 'Bool':
+                lit = [x['v'].get('bool') for x in T.walk(a['pat']) if x.get('k') == 'PLit' and isinstance(x.get('v'), dict)]
+                want = {True: 'true', False: 'false'}.get(lit[0]) if lit else None
+                got = lit_strs(body)
+                inst = 'Bool(%s)' % (lit[0] if lit else '?')
+                seen.add(inst)
+                if want and got == [want]:
+                    chk.ok('C18-value', inst, sample='%s -> %s' % (inst, want))
+                else:
+                    chk.bad('C18-value', vname, inst, 'the value encoder writes %s for %s' % (got, inst), TR, a['l'])
+            elif v == 'None':
+                seen.add('None')
+                if lit_strs(body) == ['null']:
+                    chk.ok('C18-value', 'None', sample='None -> null')
+                else:
+                    chk.bad('C18-value', vname, 'None', 'the value encoder writes %s for None' % lit_strs(body), TR, a['l'])
+            elif v == 'Str':
+                seen.add('Str')
+                if calls_to(body, senc):
+                    chk.ok('C18-value', 'Str', sample='Str -> %s(..)' % senc.split('::')[-1])
+                else:
+                    chk.bad('C18-value', vname, 'Str', 'a string value does not pass the string encoder', TR, a['l'])
+            elif v in ('List', 'Tuple', 'Dict', 'Record', 'Set'):
+                seen.add(v)
+                rec = calls_to(body, vname) or [x for x in T.walk(body) if x.get('k') == 'Path' and (x.get('d') or '').endswith(vname.split('::')[-1])]
+                keys_ok = True
+                if v in ('Dict', 'Record'):
+                    keys_ok = bool(calls_to(body, senc))
+                if rec and keys_ok:
+                    chk.ok('C18-value', v, sample='%s -> elements through %s%s' % (v, vname.split('::')[-1], ', keys through the string encoder' if v in ('Dict', 'Record') else ''))
+                else:
+                    chk.bad('C18-value', vname, v, 'the %s arm of the value encoder %s' % (v, 'does not encode its elements recursively' if not rec else 'writes keys without the string encoder'),
+                            TR, a['l'])
+            elif v == 'Float':
+                inst = 'Float:' + ('guarded' if a.get('g') else 'rest')
+                seen.add(inst)
+                if a.get('g'):
+                    if 'is_finite' in T.show(a['g']):
+                        chk.ok('C18-value', inst)
+                    else:
+                        chk.bad('C18-value', vname, inst, 'the guarded Float arm does not test is_finite()', TR, a['l'])
+                else:
+                    if lit_strs(body) == ['null']:
+                        chk.ok('C18-value', inst, sample='non-finite Float -> null')
+                    else:
+                        chk.bad('C18-value', vname, inst, 'a Float that may be inf / nan is written as %s' % (lit_strs(body) or 'its Display text'), TR, a['l'])
+    for need_ in ('Bool(True)', 'Bool(False)', 'None', 'Str', 'List', 'Tuple', 'Dict', 'Record'):
+        if need_ not in seen:
+            chk.bad('C18-value', vname, 'missing:' + need_, 'the value encoder has no arm for %s: it falls into the generic arm' % need_, TR, vf['line'])
+    chk.floor('value encoder arms recognised', len(seen), 8)
+
+
 def run(chk):
     fx = F.Facts()
     chk.rule('C18-encode', 'in JsonGenerator every piece of source text or value text that flows into the output (Literal token content, <ValueObj as Display>::to_string) '
@@ -68,4 +243,7 @@ def run(chk):
                         chk.ok('C18-encode', (where, 'Literal-arm'))
                     elif not any(c.get('k') == 'MCall' and c['n'] == 'to_string' for c in T.calls(arm['b'])):
                         chk.lost.append('%s: the Expr::Literal arm produces its text in an unrecognised way' % where)
+    encoder_rules(chk, fx, enc)
+    return ('Flow rule inside JsonGenerator (typed HIR: receiver types of to_string), a table rule on the string encoder against the escapes of RFC 8259, and a per-variant rule on '
+            'the value encoder. That the values equal the initializers (constant evaluation) is not decided.'), {}
     return ('Flow rule inside JsonGenerator (typed HIR: receiver types of to_string). Decides that value text is encoded; that the values equal the initializers is not decided.'), {}
